@@ -19,7 +19,7 @@ RULE = ("cases = one real breaker (error count / error ratio / slow ratio; timeo
         "threads ALL interleavings (binary strings with exactly maxsteps(t) entries per thread; finished threads are skipped, the rest drained), for the "
         "base configuration in quick and for all configurations in thorough; part 2: the same with a tick of timeout-1/timeout ms inserted and with "
         "two-call threads (sampled); part 3: random 2-3 thread programs (1-3 calls) with random schedules, a fixed slice aimed at each known-finding "
-        "window. rule reloads (LoadRules with an identical / equal / tuned but stat-reusable rule as one schedule step `rd:`) while calls are under way on the old breaker object: 644 exhaustive cases in quick (11 592 in thorough) + 10 % of the random stream; two breakers per resource with LoadRulesOfResource(list) by one thread — `x` entries = yield points inside the rebuild — interleaved with request threads: 336 exhaustive cases in quick (2 016 in thorough) + 8 % of the random stream; non-trivial = the state word changed during the concurrent phase; distinct by (configuration, set-up, sequence of (thread, yield point) steps)")
+        "window. rule reloads (LoadRules with an identical / equal / tuned but stat-reusable rule as one schedule step `rd:`) while calls are under way on the old breaker object: 644 exhaustive cases in quick (11 592 in thorough) + 10 % of the random stream; two breakers per resource with LoadRulesOfResource(list) by one thread — `x` entries = yield points inside the rebuild — interleaved with request threads: 336 exhaustive cases in quick (2 016 in thorough) + 8 % of the random stream; requests through contexts without a SentinelEntry (`tpn`) in the random programs; 8 % two-probe cases (two breakers that trip together, the first with a probe quota, so that entries of different threads hold probes of different breakers at once; real WhenExit/Exit hooks); non-trivial = the state word changed during the concurrent phase; distinct by (configuration, set-up, sequence of (thread, yield point) steps)")
 
 
 def fbits(x):
@@ -34,9 +34,10 @@ CONFIGS = [
     ("sr", 10, 1, fbits(0.5), 0, 5, 1, "c:5:ok", "c:6:ok"),
     ("er", 1, 0, fbits(1.0), 0, 0, 1, "c:1:ok", "c:1:err"),
     ("er", 7, 2, fbits(0.5), 3, 0, 2, "c:1:ok", "c:1:err"),
+    ("sr", 10, 2, fbits(0.5), 1, 5, 2, "c:5:ok", "c:6:ok"),
 ]
 SETUPS = ["closed", "opened", "almost", "due", "halfopen", "halfopen-late"]
-MAXSTEPS = {"tp": 3, "tpb": 4, "c": 5, "rd": 1}
+MAXSTEPS = {"tp": 3, "tpb": 4, "tpn": 3, "c": 5, "rd": 1}
 
 
 def steps_of(call):
@@ -151,20 +152,23 @@ def reload_case(rng, cid, c):
 LIST_SPECS = ["0,1,x", "1,0,x", "x,0,1", "0,x,1", "0,x", "1,x", "0,1,2,x", "2,x,0,1", "x,2,x", "0,1", "1,0", "0,1,x,x"]
 
 
-def list_case(cid, c, opened, tick, spec, others, sched, tags=()):
+def list_case(cid, c, opened, tick, spec, others, sched, tags=(), init="0,1"):
     """two breakers per resource (rule 0 = the configuration, rule 1 = the same with minRequestAmount + 100, rule 2 = double retry
     timeout), optionally rule 0's breaker opened, then LoadRulesOfResource(spec) by thread 0 — `x` = a yield point inside the
     rebuild — interleaved with the requests of the other threads"""
     kind, to, mr, thr, pn, mx = c[:6]
     ops = [cfg_line(c), f"rule 1 {to} {mr + 100} {thr} {pn} {mx}", f"rule 2 {2 * to} {mr} {thr} {pn} {mx}",
-           "thread 0 rl:0,1", "sched"]
+           f"rule 3 {to} {mr} {thr} {pn + 2} {mx}", f"thread 0 rl:{init}", "sched"]
     if opened:
         ops += ["thread 0 " + " ".join([c[8]] * c[6]), "sched"]
     if tick:
         ops.append(f"sched tick:{tick}")
-    ops.append(f"thread 0 rl:{spec}")
+    first = 0
+    if spec is not None:
+        ops.append(f"thread 0 rl:{spec}")
+        first = 1
     for i, p in enumerate(others):
-        ops.append(f"thread {i + 1} " + " ".join(p))
+        ops.append(f"thread {i + first} " + " ".join(p))
     ops += ["sched " + " ".join(str(x) for x in sched), "results", "log", "final"]
     return Case(cid, ops, tags=(c[0], f"probe={c[4]}", "list-" + ("open" if opened else "closed"), f"threads={1 + len(others)}") + tuple(tags))
 
@@ -187,6 +191,20 @@ def list_reload_case(rng, cid, c):
     return list_case(cid, c, opened, tick, spec, others, rand_sched(rng, progs, c), ("list-reload",))
 
 
+def two_probe_case(rng, cid, c):
+    """two breakers on the resource, both tripping on the same completions, the first one with a probe quota (rule 3) so
+    that callers get past it while it is HalfOpen: several entries can hold probes of different breakers at the same time
+    (exit hooks of real SentinelEntry objects); requests with and without an entry, some blocked by a later slot"""
+    init = rng.choice(["3,0", "3,0", "0,3", "3,3"])
+    n = rng.choice([2, 3, 3])
+    others = [[rng.choice(["tp", "tp", "tpb", "tpn"])] + rand_prog(rng, c, 2)[:rng.choice([0, 1, 2])] for _ in range(n)]
+    sched = rand_sched(rng, [[x, x] for p in others for x in p], c, rng.choice([0, 0, 1]))
+    # rand_sched numbers the doubled pseudo-programs: fold the ids back onto the real threads (two breakers = up to twice the steps)
+    owner = [i for i, p in enumerate(others) for _ in p]
+    sched = [owner[x] if isinstance(x, int) else x for x in sched]
+    return list_case(cid, c, True, c[1], None, others, sched, ("two-probes",), init=init)
+
+
 def rand_sched(rng, progs, c, n_ticks=None):
     total = sum(sum(steps_of(x) for x in p) for p in progs)
     ids = [i for i, p in enumerate(progs) for _ in range(sum(steps_of(x) for x in p))]
@@ -202,7 +220,7 @@ def rand_sched(rng, progs, c, n_ticks=None):
 
 
 def rand_prog(rng, c, maxcalls=3):
-    m = menu(c) + ["tp", c[8]]
+    m = menu(c) + ["tp", c[8], "tpn"]
     return [rng.choice(m) for _ in range(rng.randint(1, maxcalls))]
 
 
@@ -251,11 +269,13 @@ def stream(ctx):
             yield reload_case(rng, cid, c)
         elif r < 0.28:
             yield list_reload_case(rng, cid, c)
-        elif r < 0.37:   # part 2a: two single-call threads, all-steps schedule with ticks
+        elif r < 0.36:
+            yield two_probe_case(rng, cid, c)
+        elif r < 0.45:   # part 2a: two single-call threads, all-steps schedule with ticks
             a, b = rng.choice(menu(c)), rng.choice(menu(c))
             progs = [[a], [b]]
             yield case_of(cid, c, rng.choice(SETUPS), progs, rand_sched(rng, progs, c, rng.choice([1, 2])), ("2t-tick",))
-        elif r < 0.62:   # part 2b: two threads, up to three calls each
+        elif r < 0.66:   # part 2b: two threads, up to three calls each
             progs = [rand_prog(rng, c), rand_prog(rng, c)]
             yield case_of(cid, c, rng.choice(SETUPS), progs, rand_sched(rng, progs, c), ("2t-multi",))
         else:            # part 3: three threads (sometimes four)
